@@ -206,6 +206,18 @@ func c06Hostile(c c06Cfg) [][]byte {
 			}
 			add(&wire.Msg{Type: wire.Twstat, Tag: t, Fid: f, Stat: wire.Stat{}})
 			add(&wire.Msg{Type: wire.Twstat, Tag: t, Fid: f, Stat: wire.Stat{Mode: 0xFFFFFFFF, Atime: 0xFFFFFFFF, Mtime: 5, Length: 3, NUid: 0xFFFFFFFF, NGid: 0xFFFFFFFF, NMuid: 0xFFFFFFFF}})
+			// owner and group given by name: names the host knows as user and group, as
+			// user only, as group only (adm, tty, users, nogroup ...), not at all, and numbers
+			for _, who := range []string{"root", "daemon", "adm", "tty", "users", "staff", "nogroup", "no-such-name", "0", "54321", strings.Repeat("n", 300)} {
+				dt := wire.Stat{Type: 0xFFFF, Dev: 0xFFFFFFFF, Qid: wire.Qid{Type: 0xFF, Vers: 0xFFFFFFFF, Path: ^uint64(0)}, Mode: 0xFFFFFFFF, Atime: 0xFFFFFFFF, Mtime: 0xFFFFFFFF, Length: ^uint64(0), NUid: 0xFFFFFFFF, NGid: 0xFFFFFFFF, NMuid: 0xFFFFFFFF}
+				g, u, b := dt, dt, dt
+				g.Gid = who
+				u.Uid = who
+				b.Uid, b.Gid, b.Muid = who, who, who
+				add(&wire.Msg{Type: wire.Twstat, Tag: t, Fid: f, Stat: g})
+				add(&wire.Msg{Type: wire.Twstat, Tag: t, Fid: f, Stat: u})
+				add(&wire.Msg{Type: wire.Twstat, Tag: t, Fid: f, Stat: b})
+			}
 			var sixteen, seventeen []string
 			for i := 0; i < 17; i++ {
 				if i < 16 {
